@@ -59,7 +59,7 @@ impl Arena {
 //@@fn file=unsync.rs scope="impl Clone for Arena {" name=clone rename=clone_unsync xlate=plain st=mut props=C13
 //@subst? /use super::sealed::RefCounter;/ => 
 //@subst /let memory = self\.inner\.as_ref\(\);/ => let memory = MemTok::of(self);
-//@subst /memory\.refs\(\)\.fetch_add\(1, Ordering::Release\)/ => memory.refs_fetch_add(st, 1, Ordering::Release)
+//@subst /memory\.refs\(\)\.fetch_add\((.+?), Ordering::(\w+)\)/ => memory.refs_fetch_add(st, \1, Ordering::\2)
 //@subst /dbutils::abort\(\);/ => rt_abort();
 //@contract
   requires 1 <= old(st).refs@ <= usize::MAX as int - 1,
@@ -74,7 +74,7 @@ impl Arena {
 //@@fn file=unsync.rs scope="impl Drop for Arena {" name=drop rename=drop_unsync xlate=plain st=mut props=C13
 //@subst? /use super::sealed::RefCounter;/ => 
 //@subst /let memory_ptr = self\.inner\.as_ptr\(\);\s*let memory = &\*memory_ptr;/ => let memory = MemTok::of(self);
-//@subst /memory\.refs\(\)\.fetch_sub\(1, Ordering::Release\)/ => memory.refs_fetch_sub(st, 1, Ordering::Release)
+//@subst /memory\.refs\(\)\.fetch_sub\((.+?), Ordering::(\w+)\)/ => memory.refs_fetch_sub(st, \1, Ordering::\2)
 //@subst? /memory\.refs\(\)\.load\(Ordering::Acquire\);/ => memory.refs_load(st, Ordering::Acquire);
 //@subst /let mut memory = Box::from_raw\(memory_ptr\);\s*memory\.unmount\(\);/ => memory.unmount(st);
 //@contract
@@ -87,7 +87,7 @@ impl Arena {
 //@@fn file=sync.rs scope="impl Clone for Arena {" name=clone rename=clone_sync xlate=plain st=mut props=C13
 //@subst? /use super::sealed::RefCounter;/ => 
 //@subst /let memory = self\.inner\.as_ref\(\);/ => let memory = MemTok::of(self);
-//@subst /memory\.refs\(\)\.fetch_add\(1, Ordering::Release\)/ => memory.refs_fetch_add(st, 1, Ordering::Release)
+//@subst /memory\.refs\(\)\.fetch_add\((.+?), Ordering::(\w+)\)/ => memory.refs_fetch_add(st, \1, Ordering::\2)
 //@subst /dbutils::abort\(\);/ => rt_abort();
 //@contract
   requires 1 <= old(st).refs@ <= usize::MAX as int - 1,
@@ -102,7 +102,7 @@ impl Arena {
 //@@fn file=sync.rs scope="impl Drop for Arena {" name=drop rename=drop_sync xlate=plain st=mut props=C13
 //@subst? /use super::sealed::RefCounter;/ => 
 //@subst /let memory_ptr = self\.inner\.as_ptr\(\);\s*let memory = &\*memory_ptr;/ => let memory = MemTok::of(self);
-//@subst /memory\.refs\(\)\.fetch_sub\(1, Ordering::Release\)/ => memory.refs_fetch_sub(st, 1, Ordering::Release)
+//@subst /memory\.refs\(\)\.fetch_sub\((.+?), Ordering::(\w+)\)/ => memory.refs_fetch_sub(st, \1, Ordering::\2)
 //@subst? /memory\.refs\(\)\.load\(Ordering::Acquire\);/ => memory.refs_load(st, Ordering::Acquire);
 //@subst /let mut memory = Box::from_raw\(memory_ptr\);\s*memory\.unmount\(\);/ => memory.unmount(st);
 //@contract
